@@ -25,7 +25,7 @@ PY = "/venv/bin/python"
 ALL = [f"C{i:02d}" for i in range(1, 21)]
 RELATED = {
     "C01": ["C04", "C02"], "C02": ["C03", "C01"], "C03": ["C02", "C04"], "C04": ["C01", "C03"], "C13": ["C04", "C01"],
-    "C05": ["C06", "C10"], "C06": ["C07", "C05"], "C07": ["C16", "C10", "C06"], "C10": ["C07", "C05"], "C11": ["C07", "C09"],
+    "C05": ["C16", "C06", "C10"], "C06": ["C07", "C05"], "C07": ["C16", "C10", "C06"], "C10": ["C07", "C05"], "C11": ["C07", "C09"],
     "C08": ["C06"], "C09": ["C11"], "C12": ["C03"], "C14": ["C07"], "C15": [], "C16": ["C05"], "C17": [], "C18": [], "C19": [], "C20": [],
 }
 HIST = {"D1": "C04", "D2": "C02", "D3": "C07", "D4": "C15", "D5": "C12", "D7": "C14"}
